@@ -74,6 +74,22 @@ impl RawWs {
             Ok(RawWs { ws })
         })
     }
+    /// The same peer over a socket with a 4 KiB receive buffer (set before connecting): together with
+    /// `start_ws_small` a peer that does not read stalls the server's writer after a few KiB.
+    pub fn connect_small(addr: SocketAddr) -> Result<Self, String> {
+        use socket2::{Domain, Socket, Type};
+        runtime().block_on(async {
+            let s = Socket::new(Domain::IPV4, Type::STREAM, None).map_err(|e| format!("socket:{e}"))?;
+            s.set_recv_buffer_size(4096).map_err(|e| format!("rcvbuf:{e}"))?;
+            s.connect(&addr.into()).map_err(|e| format!("connect:{e}"))?;
+            s.set_nonblocking(true).map_err(|e| format!("nonblocking:{e}"))?;
+            let tcp = tokio::net::TcpStream::from_std(s.into()).map_err(|e| format!("from_std:{e}"))?;
+            let _ = tcp.set_nodelay(true);
+            let fut = tokio_tungstenite::client_async(format!("ws://{addr}/repe"), tokio_tungstenite::MaybeTlsStream::Plain(tcp));
+            let (ws, _) = tokio::time::timeout(Duration::from_secs(10), fut).await.map_err(|_| "handshake timeout".to_string())?.map_err(|e| e.to_string())?;
+            Ok(RawWs { ws })
+        })
+    }
     pub fn send(&mut self, frame: &[u8]) -> Result<(), String> {
         use futures_util::SinkExt;
         runtime().block_on(async { self.ws.send(tokio_tungstenite::tungstenite::Message::Binary(frame.to_vec())).await.map_err(|e| e.to_string()) })
@@ -134,5 +150,22 @@ pub fn start_ws(server: WebSocketServer) -> SocketAddr {
         let a = wl.local_addr().unwrap();
         tokio::spawn(async move { let _ = server.serve_listener(wl, "/repe").await; });
         a
+    })
+}
+/// One WebSocket server at path `/repe` whose accepted sockets inherit a 4 KiB send buffer.
+pub fn start_ws_small(server: WebSocketServer) -> Result<SocketAddr, String> {
+    use socket2::{Domain, Socket, Type};
+    runtime().block_on(async {
+        let s = Socket::new(Domain::IPV4, Type::STREAM, None).map_err(|e| format!("socket:{e}"))?;
+        let _ = s.set_reuse_address(true);
+        s.set_send_buffer_size(4096).map_err(|e| format!("sndbuf:{e}"))?;
+        let a: SocketAddr = "127.0.0.1:0".parse().unwrap();
+        s.bind(&a.into()).map_err(|e| format!("bind:{e}"))?;
+        s.listen(16).map_err(|e| format!("listen:{e}"))?;
+        s.set_nonblocking(true).map_err(|e| format!("nonblocking:{e}"))?;
+        let wl = tokio::net::TcpListener::from_std(s.into()).map_err(|e| format!("from_std:{e}"))?;
+        let a = wl.local_addr().map_err(|e| format!("addr:{e}"))?;
+        tokio::spawn(async move { let _ = server.serve_listener(wl, "/repe").await; });
+        Ok(a)
     })
 }
